@@ -115,6 +115,7 @@ def run(ctx):
     if thorough:
         mats += _ctc.grid(4, extreme_only_from=4)[len(_ctc.grid(3)):]
         mats += _ctc.grid(3, C=4, denom=2)
+    mats += _ctc.wide_alphabet_matrices()        # symbol indices with two digits (13 letters + blank)
     mats = bounded.order(mats, ctx.seed)
     ks = [1, 2, 3, 10 ** 6]
     res = bounded.pmap(_chunk, [(c, ks, (True, False)) for c in bounded.shard(mats, 48)])
@@ -127,7 +128,7 @@ def run(ctx):
         fails.append(Failure(s, 'run-time contract %s fails: %s on %s' % (f['clause'], f['observed'], f['input']),
                              function='CTCPrefixLogRawNumpyDecoder.__call__', input=f['input'], observed=f['observed'], clause=f['clause']))
     ctx.add_bounded('beam-search-grid',
-                    'all matrices T<=3 (thorough: + T=4 over near-deterministic rows, + C=4 half rows T<=3) with rows = all distributions with quarter probabilities over 3 classes (log 0 = -inf; T<=2 also with -80); k in {1,2,3,1e6}; default and non-pruning selector',
+                    'all matrices T<=3 (thorough: + T=4 over near-deterministic rows, + C=4 half rows T<=3) with rows = all distributions with quarter probabilities over 3 classes (log 0 = -inf; T<=2 also with -80), plus 116 matrices T=3..4 over 13 letters + blank where only the symbols 1, 2, 11, 12 are probable; k in {1,2,3,1e6}; default and non-pruning selector',
                     res['evaluations'] + 6, res['nontrivial'], True, res['samples'], fails,
                     rule='every (matrix, k, selector) of the grid; non-trivial = at least two frames',
                     clause='distinct transcripts; no over-count; exact when unpruned; equals reference beam search; rejects unnormalised input')
